@@ -11,3 +11,17 @@ def run(ctx, res):
     fn = getattr(structural, "C14".lower(), None)
     if fn is not None:
         fn(ctx, res)
+    # "equal": a lookup in the clone finds what the source finds -- the cloned entries must be filed under hashes built with the
+    # clone's own hash builder (the C04.1 hash-agreement rules, restricted to what clone() reaches)
+    from .. import core
+    tmp = core.Result("C14")
+    structural.c04(ctx, tmp, only_hash_agreement=True)
+    b = ctx.roles.trait_method("std::clone::Clone", "clone")
+    reach = set(ctx.cg.reach(b).keys()) if b is not None else set()
+    for o in tmp.obligations:
+        if any(("`%s`" % p) in o.get("name", "") for p in reach):
+            res.count("C14 hash agreement in clone")
+            res.obligations.append(o)
+    for v in tmp.violations:
+        if any(p in v.key for p in reach):
+            res.violate(v.key, v.msg, v.loc, v.detail, v.rule)
